@@ -129,7 +129,7 @@ fn c09_module(body: &[Instr], shape: Shape, bare: bool) -> Module {
 }
 
 fn instr_level(report: &Report, tier: Tier, cases: &AtomicU64, accepted: &AtomicU64, runs: &AtomicU64, prefixes_out: &AtomicU64) {
-    let shape = Shape { ret: Some(VT::I32), hosts: false };
+    let shape = Shape { ret: Some(VT::I32), hosts: false, extra: 0 };
     let prefix_len = if tier == Tier::Quick { 2 } else { 3 };
     let tail_len = 2;
     for bare in [false, true] {
@@ -607,7 +607,7 @@ fn limit_level(report: &Report, cases_ctr: &AtomicU64, accepted: &AtomicU64, run
 
 fn seed_modules() -> Vec<(String, Vec<u8>)> {
     let mut seeds = vec![];
-    let shape = Shape { ret: Some(VT::I32), hosts: true };
+    let shape = Shape { ret: Some(VT::I32), hosts: true, extra: 0 };
     use Instr::*;
     let bodies: Vec<(&str, Vec<Instr>)> = vec![
         ("arith", vec![LocalGet(0), LocalGet(1), Num(0x6A)]),
@@ -794,7 +794,7 @@ fn replay(report: &Report, path: &std::path::Path) -> ! {
         Some("instr") => {
             let body = body_from_json(&w["body"]).unwrap_or_else(|| mc_core::machinery_error("bad body"));
             let bare = w["bare_module"].as_bool().unwrap_or(false);
-            let shape = Shape { ret: Some(VT::I32), hosts: false };
+            let shape = Shape { ret: Some(VT::I32), hosts: false, extra: 0 };
             let module = c09_module(&body, shape, bare);
             let bytes = module.encode();
             for vcfg in [VCfg::V0, VCfg::V1] {
